@@ -2,7 +2,7 @@
    Model: Model/Ortho.v; the QR factorisation is an oracle whose contract (A = Q R, orthonormal columns of Q)
    appears as the hypotheses qr_exact / qr_orthonormal -- validated numerically on every call the
    implementation makes (harness/props/c13.py). *)
-From TN Require Import Proofs.OrthoP Alg.Inst.
+From TN Require Import Proofs.OrthoP Proofs.SandwichP Proofs.OrthoSweepP Alg.Inst.
 
 Section C13.
 Variable K : Ops.
@@ -41,6 +41,18 @@ Theorem C13_norm : forall (c : score K) (cs : list (score K)), rl c = 1%nat -> r
   sumidx (sshape (c :: cs)) (fun idx => eval (c :: cs) idx * eval (c :: cs) idx) =
   sumn (dm c) (fun i => sumn (rr c) (fun q => sl c i O q * sl c i O q)).
 Proof. exact (norm_first_core K Kth). Qed.
+
+(* the whole of orthogonalize(mu) (left sweep over cores 0..mu-1, right sweep over cores N-1..mu+1), for any oracle that meets
+   the QR contract on every call: the tensor is unchanged, the shape is unchanged, the cores left of mu form a
+   left-orthonormal chain and the cores right of mu a right-orthonormal chain *)
+Theorem C13_orthogonalize : (forall m n A, qr_exact qr m n A /\ qr_orthonormal qr m n A) ->
+  forall (mu : nat) (cs : list (score K)) idx,
+  chain 1 cs = true -> last_rr 1 cs = 1%nat -> (mu < length cs)%nat -> in_range (sshape cs) idx = true ->
+  eval (orthogonalize K qr mu cs) idx = eval cs idx /\
+  sshape (orthogonalize K qr mu cs) = sshape cs /\
+  lchain K 1 (firstn mu (orthogonalize K qr mu cs)) /\
+  match skipn mu (orthogonalize K qr mu cs) with h :: rest => rchain K (rr h) rest | [] => False end.
+Proof. intros Hqr. exact (orthogonalize_sound K Kth qr Hqr). Qed.
 End C13.
 
 Print Assumptions C13_left_unchanged.
@@ -48,4 +60,5 @@ Print Assumptions C13_left_gauge.
 Print Assumptions C13_right_unchanged.
 Print Assumptions C13_right_gauge.
 Print Assumptions C13_isometry.
+Print Assumptions C13_orthogonalize.
 Print Assumptions C13_norm.
